@@ -10,6 +10,7 @@ CONSTANTS
   KeepHist = FALSE
   GenDepth = 0
   GenDir = "."
+  KindBag <- BagDefault
   Tmax = 7
   Jump = 2
   MaxAuc = 1
